@@ -37,7 +37,7 @@ def exc_class(e):
     n = type(e).__name__
     if isinstance(e, Timeout):
         return 'EFuel'
-    if n == 'Injected':
+    if n in ('Injected', 'InjectedBase'):
         return 'EInjected'
     if n == 'SerializationError':
         return 'ESerialization'
@@ -82,6 +82,15 @@ class Tree:
                 limited(20, ProtocolCodeGenerator(Path(self.xml)).generate, Path(self.out))
             return True, ''
         except BaseException as e:
+            # where the rejection was raised (innermost frame inside the generator): which rule fired
+            site = ''
+            tb = e.__traceback__
+            while tb is not None:
+                fn = tb.tb_frame.f_code.co_filename
+                if 'protocol_code_generator' in fn:
+                    site = f"{fn[fn.index('protocol_code_generator'):]}:{tb.tb_lineno}"
+                tb = tb.tb_next
+            self.raise_site = site
             return False, f"{type(e).__name__}: {e}"
 
 
@@ -146,7 +155,12 @@ class Injected(ValueError):
     pass
 
 
-def failing_writer(EoWriter, k):
+class InjectedBase(BaseException):
+    """a failure that is not an Exception subclass (as KeyboardInterrupt, asyncio.CancelledError, GeneratorExit are)"""
+    pass
+
+
+def failing_writer(EoWriter, k, base=False):
     """a writer whose k-th add_* call raises (a failing writer, as the property's 'failing writer/reader')"""
     class FW(EoWriter):
         pass
@@ -158,7 +172,7 @@ def failing_writer(EoWriter, k):
         def f(self, *a, **kw):
             state['n'] += 1
             if state['n'] == k:
-                raise Injected('injected writer failure')
+                raise (InjectedBase if base else Injected)('injected writer failure')
             return orig(self, *a, **kw)
         return f
     for name in ('add_byte', 'add_bytes', 'add_char', 'add_short', 'add_three', 'add_int', 'add_string', 'add_fixed_string',
@@ -167,7 +181,7 @@ def failing_writer(EoWriter, k):
     return FW()
 
 
-def failing_reader(EoReader, data, k):
+def failing_reader(EoReader, data, k, base=False):
     class FR(EoReader):
         pass
     state = {'n': 0}
@@ -178,7 +192,7 @@ def failing_reader(EoReader, data, k):
         def f(self, *a, **kw):
             state['n'] += 1
             if state['n'] == k:
-                raise Injected('injected reader failure')
+                raise (InjectedBase if base else Injected)('injected reader failure')
             return orig(self, *a, **kw)
         return f
     for name in ('get_byte', 'get_bytes', 'get_char', 'get_short', 'get_three', 'get_int', 'get_string', 'get_fixed_string',
@@ -194,7 +208,7 @@ def do_ser(eolib, job):
     except BaseException as e:
         return {'construct_error': exc_class(e), 'msg': str(e)[:200]}
     cls = find_class(eolib, job['cls'])
-    w = failing_writer(EoWriter, job['fail_at']) if job.get('fail_at') else EoWriter()
+    w = failing_writer(EoWriter, job['fail_at'], bool(job.get('fail_base'))) if job.get('fail_at') else EoWriter()
     if job.get('pre'):
         w.add_bytes(bytes(job['pre']))
     w.string_sanitization_mode = job['san']
@@ -206,9 +220,9 @@ def do_ser(eolib, job):
     return {'res': res, 'bytes': list(w.to_bytearray()), 'mode': bool(w.string_sanitization_mode)}
 
 
-def do_deser(eolib, cls, data, chunked, fail_at=None, reser=False):
+def do_deser(eolib, cls, data, chunked, fail_at=None, reser=False, fail_base=False):
     from eolib.data.eo_reader import EoReader
-    r = failing_reader(EoReader, data, fail_at) if fail_at else EoReader(bytes(data))
+    r = failing_reader(EoReader, data, fail_at, fail_base) if fail_at else EoReader(bytes(data))
     if chunked:
         r.chunked_reading_mode = True
     import time
@@ -484,6 +498,8 @@ def run_tree(root, t):
     tree = Tree(root, t['files'])
     ok, err = tree.generate()
     res = {'id': t['id'], 'accepted': ok, 'error': err, 'results': []}
+    if not ok:
+        res['raise_site'] = getattr(tree, 'raise_site', '')
     if not ok or not t.get('jobs'):
         if ok and t.get('want_sources'):
             res['sources'] = sources(tree)
@@ -538,7 +554,7 @@ def run_tree(root, t):
                 out = {'family': int(cls.family()), 'action': int(cls.action()),
                        'family_type': type(cls.family()).__name__, 'action_type': type(cls.action()).__name__}
             elif op == 'deser':
-                out = do_deser(eolib, find_class(eolib, job['cls']), job['data'], job['chunked'], job.get('fail_at'), job.get('reser', False))
+                out = do_deser(eolib, find_class(eolib, job['cls']), job['data'], job['chunked'], job.get('fail_at'), job.get('reser', False), bool(job.get('fail_base')))
             else:
                 out = {'error': 'unknown op'}
         except BaseException as e:
